@@ -7,7 +7,14 @@ ids="$@"; [ -z "$ids" ] && ids=$(ls seeded)
 for sid in $ids; do
   P=${sid%%-*}
   git -C $R diff --quiet || { echo "/repo is not clean"; exit 3; }
-  git -C $R apply /verif/seeded/$sid/patch.diff || { echo "$sid: does not apply"; continue; }
+  # seeded/<id>/base_commit: the change was written against that commit of jilio/ebu and collides with a later
+  # fix: commit; it is then evaluated on a scratch worktree at that commit (never on /repo itself)
+  head=$(git -C $R rev-parse HEAD)
+  if [ -f seeded/$sid/base_commit ]; then
+    [ "$R" = /repo ] && { echo "$sid: needs a scratch worktree (SEED_REPO)"; continue; }
+    git -C $R checkout -q $(cat seeded/$sid/base_commit)
+  fi
+  git -C $R apply /verif/seeded/$sid/patch.diff || { echo "$sid: does not apply"; git -C $R checkout -q $head; continue; }
   res=""
   # seeded/<id>/extra_checks names further properties whose checks are run against this change
   for Q in $P $(cat seeded/$sid/extra_checks 2>/dev/null); do
@@ -17,5 +24,6 @@ for sid in $ids; do
     echo "$sid $Q rc=$rc $lab"
   done
   git -C $R checkout -- .
+  git -C $R checkout -q $head
   echo "$res" > seeded/$sid/result.txt
 done
